@@ -13,7 +13,8 @@ every class in `src/pytezos/michelson/types/`).
            RFC 3339 formatting / parsing (`datetime`, `strict_rfc3339`), `check_constraints` of sets and maps
            (`sorted` + `set`, C03's order), `Micheline.match(..).as_micheline_expr()` of lambda bodies.
 * `Impl.Value.toMich`, `Impl.Value.ofMich` — the mirror.  Facts read from the source by the translator
-           (`Generated.C11`): does `iter_comb` consult annotations, the timestamp range guard, the handler tables
+           (`Generated.C11`): does `iter_comb` consult annotations, the timestamp range guard, the year padding of
+           `format_timestamp`, the shape of `optimize_timestamp` (RFC 3339 first, then `int`), the handler tables
            of `parse_micheline_value` / `parse_micheline_literal` of every class, `bls12_381_fr` modulus, mutez width.
 -/
 namespace VC
@@ -171,8 +172,8 @@ def consults : Bool := Generated.C11.combConsultsAnnots.getD true
 
 def sourceOk : Bool :=
   Generated.C11.combConsultsAnnots.isSome && Generated.C11.pairToMichRecognised && Generated.C11.pairFromMichRecognised
-    && Generated.C11.tsGuard.isSome && Generated.C11.yearPadded.isSome && Generated.C11.frModulus.isSome
-    && Generated.C11.mutezBits.isSome
+    && Generated.C11.tsGuard.isSome && Generated.C11.yearPadded.isSome && Generated.C11.tsParseRecognised
+    && Generated.C11.frModulus.isSome && Generated.C11.mutezBits.isSome
 
 def DomKind.prim : DomKind → String
   | .address => "address" | .contract => "address" | .keyHash => "key_hash" | .key => "key"
